@@ -201,9 +201,17 @@ NewKnotSeqs(k) ==    \* up to two new knots (non-decreasing, repetition allowed)
           or     { with (nn \in NewKnotSeqs(kk)) { out := RefineCase(kk, FALSE, nn) } }
         };
     } else if (Family = "eq") {
-        with (k1 \in KVSet, k2 \in KVSet) {
-          out := [kind |-> "eq", p1 |-> k1.p, t1 |-> k1.t, p2 |-> k2.p, t2 |-> k2.t, sc |-> SC,
-                  equal |-> (k1.p = k2.p /\ k1.t = k2.t)];
+        either {
+          with (k1 \in KVSet, k2 \in KVSet) {
+            out := [kind |-> "eq", p1 |-> k1.p, t1 |-> k1.t, p2 |-> k2.p, t2 |-> k2.t, sc |-> SC,
+                    equal |-> (k1.p = k2.p /\ k1.t = k2.t)];
+          }
+        } or {      \* the same knots declared with another degree are a different knot vector
+          with (k1 \in KVSet, dp \in {-1, 1}) {
+            await k1.p + dp >= 0;
+            out := [kind |-> "eq", p1 |-> k1.p, t1 |-> k1.t, p2 |-> k1.p + dp, t2 |-> k1.t, sc |-> SC,
+                    equal |-> FALSE];
+          }
         };
     } else if (Family = "deriv") {
         with (kk \in {k0 \in KVSet : k0.p >= 1}, ff \in {"ints", "linear", "quadratic"}) {
@@ -223,7 +231,7 @@ NewKnotSeqs(k) ==    \* up to two new knots (non-decreasing, repetition allowed)
     }
   }
 } *)
-\* BEGIN TRANSLATION (chksum(pcal) = "7c28162a" /\ chksum(tla) = "d1a00768")
+\* BEGIN TRANSLATION (chksum(pcal) = "7c28162a" /\ chksum(tla) = "935f42b2")
 VARIABLES pc, kvr, uq, lo, hi, mid, res, out
 
 vars == << pc, kvr, uq, lo, hi, mid, res, out >>
@@ -255,10 +263,15 @@ Pick == /\ pc = "Pick"
                                               \/ /\ \E nn \in NewKnotSeqs(kk):
                                                       out' = RefineCase(kk, FALSE, nn)
                                     ELSE /\ IF Family = "eq"
-                                               THEN /\ \E k1 \in KVSet:
-                                                         \E k2 \in KVSet:
-                                                           out' = [kind |-> "eq", p1 |-> k1.p, t1 |-> k1.t, p2 |-> k2.p, t2 |-> k2.t, sc |-> SC,
-                                                                   equal |-> (k1.p = k2.p /\ k1.t = k2.t)]
+                                               THEN /\ \/ /\ \E k1 \in KVSet:
+                                                               \E k2 \in KVSet:
+                                                                 out' = [kind |-> "eq", p1 |-> k1.p, t1 |-> k1.t, p2 |-> k2.p, t2 |-> k2.t, sc |-> SC,
+                                                                         equal |-> (k1.p = k2.p /\ k1.t = k2.t)]
+                                                       \/ /\ \E k1 \in KVSet:
+                                                               \E dp \in {-1, 1}:
+                                                                 /\ k1.p + dp >= 0
+                                                                 /\ out' = [kind |-> "eq", p1 |-> k1.p, t1 |-> k1.t, p2 |-> k1.p + dp, t2 |-> k1.t, sc |-> SC,
+                                                                            equal |-> FALSE]
                                                ELSE /\ IF Family = "deriv"
                                                           THEN /\ \E kk \in {k0 \in KVSet : k0.p >= 1}:
                                                                     \E ff \in {"ints", "linear", "quadratic"}:
